@@ -38,29 +38,29 @@ TimeForms == {MkTime(p, ms) : p \in 4..7, ms \in {T0, TEnd, TMid, T8}}
 BForms == DateForms \cup DtForms \cup TimeForms
 
 ModelUnits == Kw1Units \cup {"months", "mo", "milliseconds", "mg"}
-ModelCases == {Ar(x, op, Qty(a, u)) : x \in BForms, op \in Ops, u \in ModelUnits, a \in Amounts}
+ModelCases(z) == {Ar(x, op, Qty(a, u)) : x \in BForms, op \in Ops, u \in ModelUnits, a \in Amounts}
 
 (***************************** the quick tier *****************************)
 UnitAmounts ==
   {<<u, a>> : u \in Kw1Units, a \in Amounts} \cup {<<u, a>> : u \in KwNUnits, a \in FewAmounts}
   \cup {<<u, a>> : u \in UcumUnits, a \in UcumAmounts} \cup {<<u, a>> : u \in {"mg", "kg"}, a \in {0, 1000}}
-CrossCases == {Ar(x, op, Qty(ua[2], ua[1])) : x \in BForms, op \in Ops, ua \in UnitAmounts}
+CrossCases(z) == {Ar(x, op, Qty(ua[2], ua[1])) : x \in BForms, op \in Ops, ua \in UnitAmounts}
 
 (* calendar sweep: Date at day precision over the marked days of the cycle and the edges *)
 DateUnitAmounts ==
   {<<u, a>> : u \in {v \in Kw1Units : RankOf(v) \in DateRanks}, a \in Amounts}
   \cup {<<u, a>> : u \in {v \in KwNUnits : RankOf(v) \in DateRanks}, a \in {1000, 13000, -1000}}
 SweepDays == CycleDays \cup EdgeDays
-DateSweep == {Ar(MkDate(3, c[1], c[2], c[3]), op, Qty(ua[2], ua[1])) : c \in SweepDays, op \in Ops, ua \in DateUnitAmounts}
-MonthSweep == {Ar(MkDate(2, ym[1], ym[2], 1), op, Qty(a, u)) : ym \in CycleMonths, op \in Ops, u \in {"month", "days"}, a \in Amounts}
-DtSweep == {Ar(MkDT(6, c[1], c[2], c[3], TMid, [tz |-> TRUE, off |-> 330]), op, Qty(a, u)) :
+DateSweep(z) == {Ar(MkDate(3, c[1], c[2], c[3]), op, Qty(ua[2], ua[1])) : c \in SweepDays, op \in Ops, ua \in DateUnitAmounts}
+MonthSweep(z) == {Ar(MkDate(2, ym[1], ym[2], 1), op, Qty(a, u)) : ym \in CycleMonths, op \in Ops, u \in {"month", "days"}, a \in Amounts}
+DtSweep(z) == {Ar(MkDT(6, c[1], c[2], c[3], TMid, [tz |-> TRUE, off |-> 330]), op, Qty(a, u)) :
               c \in SweepDays, op \in Ops, u \in {"year", "months", "day"}, a \in {1000, 12000, 13000, 365000, -1000}}
 
-InvCases == {Inv(x, op, Qty(a, u)) : x \in BForms, op \in Ops, u \in Kw1Units, a \in {1000, 24000, 25000, 1500, -1000}}
+InvCases(z) == {Inv(x, op, Qty(a, u)) : x \in BForms, op \in Ops, u \in Kw1Units, a \in {1000, 24000, 25000, 1500, -1000}}
 CmpPairs == {<<0, 1000>>, <<23000, 24000>>, <<24000, 25000>>, <<59000, 60000>>, <<60000, 61000>>, <<365000, 366000>>,
              <<-1000, 0>>, <<1000, 1500>>, <<-13000, -1000>>}
-CmpCases == {Cmp(x, "+", Qty(pr[1], u), Qty(pr[2], u)) : x \in BForms, u \in Kw1Units, pr \in CmpPairs}
-            \cup {Cmp(x, "-", Qty(pr[1], u), Qty(pr[2], u)) : x \in BForms, u \in Kw1Units, pr \in {<<0, 1000>>, <<24000, 25000>>, <<60000, 61000>>}}
+CmpOpPairs == {<<"+", pr>> : pr \in CmpPairs} \cup {<<"-", pr>> : pr \in {<<0, 1000>>, <<24000, 25000>>, <<60000, 61000>>}}
+CmpCases(z) == {Cmp(x, op[1], Qty(op[2][1], u), Qty(op[2][2], u)) : x \in BForms, u \in Kw1Units, op \in CmpOpPairs}
 
 QQUnitPairs ==
   {<<u, u>> : u \in AllUnits}
@@ -70,26 +70,30 @@ QQUnitPairs ==
         <<"s", "ms">>, <<"week", "days">>, <<"mg", "year">>, <<"second", "milliseconds">>}
 QQAmountPairs == {<<1000, 1000>>, <<1000, 2500>>, <<2500, 1000>>, <<-1000, 1000>>, <<0, 0>>, <<1500, 1500>>, <<100, 200>>}
 QQOps == {"+", "-", "=", "!=", "<", "<=", ">", ">="}
-QQCases == {QQ(op, Qty(ap[1], up[1]), Qty(ap[2], up[2])) : op \in QQOps, up \in QQUnitPairs, ap \in QQAmountPairs}
+QQCases(z) == {QQ(op, Qty(ap[1], up[1]), Qty(ap[2], up[2])) : op \in QQOps, up \in QQUnitPairs, ap \in QQAmountPairs}
 
-QuickCases == CrossCases \cup DateSweep \cup MonthSweep \cup DtSweep \cup InvCases \cup CmpCases \cup QQCases
 
 (**************************** the thorough tier ****************************)
-FullDateSweep == {Ar(MkDate(3, c[1], c[2], c[3]), op, Qty(a, u)) :
+FullDateSweep(z) == {Ar(MkDate(3, c[1], c[2], c[3]), op, Qty(a, u)) :
                     c \in AllCycleDays, op \in Ops, u \in {"year", "months", "week", "days"}, a \in Amounts}
 (* 60-day window around the leap day x 6 times of day *)
 WindowDays == {c \in AllCycleDays : DayNum(c[1], c[2], c[3]) \in DayNum(2020, 1, 15)..(DayNum(2020, 1, 15) + 59)}
-WindowCases == {Ar(MkDT(7, c[1], c[2], c[3], ms, [tz |-> TRUE, off |-> -660]), op, Qty(a, u)) :
+WindowCases(z) == {Ar(MkDT(7, c[1], c[2], c[3], ms, [tz |-> TRUE, off |-> -660]), op, Qty(a, u)) :
                   c \in WindowDays, ms \in DayTimes, op \in Ops, u \in {"month", "days", "hours", "minute", "seconds"},
                   a \in {1000, 24000, 25000, 61000, 1500, -13000}}
-TimeWindow == {Ar(MkTime(p, ms), op, Qty(a, u)) : p \in 4..7, ms \in DayTimes, op \in Ops,
+TimeWindow(z) == {Ar(MkTime(p, ms), op, Qty(a, u)) : p \in 4..7, ms \in DayTimes, op \in Ops,
                   u \in {"hour", "minutes", "second", "millisecond"}, a \in Amounts}
-ThoroughCases == QuickCases \cup FullDateSweep \cup WindowCases \cup TimeWindow
 
-Cases == CASE Tier = "model" -> ModelCases [] Tier = "quick" -> QuickCases [] Tier = "thorough" -> ThoroughCases
+(* big sets take a dummy parameter: TLC evaluates zero-arity constant definitions eagerly at *)
+(* start-up, and the union of big sets is quadratic; Init enumerates each family separately  *)
+InCases(c) ==
+  \/ Tier = "model" /\ c \in ModelCases(0)
+  \/ Tier \in {"quick", "thorough"} /\ (\/ c \in CrossCases(0) \/ c \in DateSweep(0) \/ c \in MonthSweep(0) \/ c \in DtSweep(0)
+                                        \/ c \in InvCases(0) \/ c \in CmpCases(0) \/ c \in QQCases(0))
+  \/ Tier = "thorough" /\ (c \in FullDateSweep(0) \/ c \in WindowCases(0) \/ c \in TimeWindow(0))
 
 (******************************* the machine *******************************)
-Init == cs \in Cases /\ res = [k |-> "pending"]
+Init == InCases(cs) /\ res = [k |-> "pending"]
 
 Expected(c) ==
   CASE c.kind = "ar"  -> PermittedAr(c.x, c.op, c.q)
@@ -111,13 +115,13 @@ x == cs.x
 rank == RankOf(cs.q.unit)
 th == cs.q.th
 sg == SignOf(cs.op)
-Applies == cs.kind = "ar" /\ IsTemporalUnit(cs.q.unit) /\ ~TimeHasNoUnit(x, rank)
+Applies == res.k = "done" /\ cs.kind = "ar" /\ IsTemporalUnit(cs.q.unit) /\ ~TimeHasNoUnit(x, rank)
 R == Results(x, cs.op, rank, th)
 InR == {r.v : r \in {rr \in R : ~rr.oob}}
 
 (* the result has x's type, precision and offset, and is a well-formed value *)
 TypePreserved ==
-  /\ (cs.kind # "qq" => WellFormed(x))
+  /\ (res.k = "done" /\ cs.kind # "qq" => WellFormed(x))
   /\ (Applies => \A v \in InR : /\ WellFormed(v) /\ v.t = x.t /\ v.p = x.p
                                /\ (x.t = "dt" => v.tz = x.tz /\ v.off = x.off))
 
@@ -148,8 +152,9 @@ ExactUnits ==
                   perDay == DayMs \div u
                   want == sg * a * (RankMs(rank) \div u)
                   got == (XDay(v) - XDay(x)) * perDay + (XMs(v) - XMs(x)) \div u
-              IN /\ (XMs(v) - XMs(x)) % u = 0
-                 /\ (IF x.t = "time" THEN (got - want) % perDay = 0 ELSE got = want)
+              IN AbsInt(a) > 2000000000 \div (RankMs(rank) \div u)   \* beyond 32 bits: not checked
+                 \/ /\ (XMs(v) - XMs(x)) % u = 0
+                    /\ (IF x.t = "time" THEN (got - want) % perDay = 0 ELSE got = want)
 
 (* monotone in the amount (Date and DateTime; a Time wraps) *)
 Monotone ==
